@@ -43,6 +43,7 @@ func checkC07(w *World, r *Report) {
 	r.Rule("R07.8", "outgoing packets are numbered consecutively under the mutex", 1)
 	r.Rule("R07.9", "packets are retired only on a matching acknowledgement; the oldest is (re)sent first", 2)
 	r.Rule("R07.10", "a write succeeds only after its packets were acknowledged", 1)
+	r.Rule("R07.11", "out-of-order packets are parked once: unseen, inside the window, remembered", 1)
 
 	fns := dnsPkgFuncs(w)
 	c07WrapSafe(w, r, fns)
@@ -246,7 +247,41 @@ func c07AckMemory(w *World, r *Report) {
 						}
 						isRet := func(in2 ssa.Instruction) bool { _, ok := in2.(*ssa.Return); return ok }
 						if t := canReach(fn, st, isBoundTest, isRet); t != nil {
-							bad = fmt.Sprintf("%s: after this append to the ack memory a return (%s) is reachable without the bound being applied: the list grows without limit on that path", w.Pos(st.Pos()), w.Pos(t.Pos()))
+							// the bound may be applied by every caller after the helper returns
+							obj := fnObj(fn)
+							ncall, allBound := 0, true
+							for j := 0; j < n.NumMethods(); j++ {
+								caller := w.SSAFunc(n.Method(j))
+								if caller == nil {
+									continue
+								}
+								for _, c := range callsIn(caller) {
+									if obj == nil || sCallee(c) != obj {
+										continue
+									}
+									ncall++
+									isBT := func(in2 ssa.Instruction) bool {
+										bo, ok := in2.(*ssa.BinOp)
+										if !ok {
+											return false
+										}
+										for _, side := range []ssa.Value{bo.X, bo.Y} {
+											if cl, ok := side.(*ssa.Call); ok {
+												if bi, ok := cl.Call.Value.(*ssa.Builtin); ok && bi.Name() == "len" && isLoadOfField(cl.Call.Args[0], acked) {
+													return true
+												}
+											}
+										}
+										return false
+									}
+									if canReach(caller, c, isBT, isRet) != nil {
+										allBound = false
+									}
+								}
+							}
+							if ncall == 0 || !allBound {
+								bad = fmt.Sprintf("%s: after this append to the ack memory a return (%s) is reachable without the bound being applied (here or in every caller): the list grows without limit on that path", w.Pos(st.Pos()), w.Pos(t.Pos()))
+							}
 						}
 					}
 				}
@@ -791,6 +826,11 @@ func c07Bookkeeping(w *World, r *Report) {
 		r.Check(okDup, "R07.7", "method:(*streams/dns/util.InQueue).Append|duplicate-suppression", w.Pos(fn.Pos()), "every release is on the not-already-acknowledged edge", "a packet can be released although its number is in the acknowledged list (duplicates are delivered twice)")
 	}
 
+	// R07.11 / R12.6: a packet parked out of order is inside the window, not yet seen, and is remembered as seen on the same path
+	if fn := w.SSAFunc(methodOf(inQ, "Append")); fn != nil {
+		c07Parked(w, r, "R07.11", fn, inQ)
+	}
+
 	// R07.8 addChunk: SeqNo of the new packet is NextSeqNo, then NextSeqNo += 1, under the mutex
 	if fn := w.SSAFunc(methodOf(outQ, "addChunk")); fn == nil {
 		r.Undecided("R07.8", "method:(*streams/dns/util.OutQueue).addChunk", "-", "anchor unresolved")
@@ -944,4 +984,126 @@ func c07Bookkeeping(w *World, r *Report) {
 		})
 		r.Check(bad == "" && n > 0, "R07.10", "method:(*streams/dns/util.OutQueue).Write|acked-before-success", w.Pos(fn.Pos()), fmt.Sprintf("%d path(s) that queued data return the result of waitEmptyQueue()", n), bad)
 	}
+}
+
+// c07Parked: every growth of the out-of-order store happens (a) on the
+// not-already-seen edge, (b) inside the acceptance window, and (c) on a path
+// that also records the packet's number in the acknowledged list — otherwise a
+// repeated out-of-order packet is parked again and again (unbounded memory per
+// message, and stale copies are injected as data after the 16-bit wrap).
+func c07Parked(w *World, r *Report, rule string, fn *ssa.Function, inQ *types.Named) {
+	future, acked := fieldOf(inQ, "future"), fieldOf(inQ, "acked")
+	pkt := w.Named("internal/streams/dns/util", "Packet")
+	seqF := fieldOf(pkt, "SeqNo")
+	isAcked := methodOf(inQ, "isAcked")
+	key := "method:(*streams/dns/util.InQueue).Append|parked-packets"
+	if future == nil || acked == nil || seqF == nil {
+		r.Undecided(rule, key, "-", "anchor unresolved")
+		return
+	}
+	isGrowth := func(in ssa.Instruction) bool {
+		st, ok := in.(*ssa.Store)
+		if !ok {
+			return false
+		}
+		fa, ok := st.Addr.(*ssa.FieldAddr)
+		if !ok || fieldVarOf(fa) != future {
+			return false
+		}
+		c, ok := st.Val.(*ssa.Call)
+		if !ok {
+			return false
+		}
+		b, ok := c.Call.Value.(*ssa.Builtin)
+		if !ok || b.Name() != "append" || !isLoadOfField(c.Call.Args[0], future) {
+			return false
+		}
+		// removal idiom append(future[0:i], future[i+1:]...) is not growth
+		if sl, ok := c.Call.Args[1].(*ssa.Slice); ok {
+			if isLoadOfField(sl.X, future) {
+				return false
+			}
+		}
+		if sl, ok := c.Call.Args[0].(*ssa.Slice); ok && isLoadOfField(sl.X, future) {
+			return false
+		}
+		return true
+	}
+	isAckAppend := func(in ssa.Instruction) bool {
+		st, ok := in.(*ssa.Store)
+		if !ok {
+			return false
+		}
+		fa, ok := st.Addr.(*ssa.FieldAddr)
+		if !ok || fieldVarOf(fa) != acked {
+			return false
+		}
+		c, ok := st.Val.(*ssa.Call)
+		if !ok {
+			return false
+		}
+		b, ok := c.Call.Value.(*ssa.Builtin)
+		return ok && b.Name() == "append"
+	}
+	bad := ""
+	ngrow := 0
+	okp := enumPaths(fn, nil, func(in ssa.Instruction) bool { return isGrowth(in) || isAckAppend(in) }, nil, func(e pathExit) {
+		if _, ok := e.Last.(*ssa.Return); !ok {
+			return
+		}
+		grew, remembered := false, false
+		for _, ev := range e.State.Events {
+			if isGrowth(ev) {
+				grew = true
+			}
+			if isAckAppend(ev) {
+				// the appended element is the parked packet's number
+				c := ev.(*ssa.Store).Val.(*ssa.Call)
+				for _, root := range rootsOf(w, c.Call.Args[1]) {
+					if fa := asFieldAddr(root); fa != nil && fieldVarOf(fa) == seqF {
+						if _, isParam := fa.X.(*ssa.Parameter); isParam {
+							remembered = true
+						}
+					}
+				}
+			}
+		}
+		if !grew {
+			return
+		}
+		ngrow++
+		if !remembered {
+			bad = "a packet is parked out of order on a path that does not record its number as seen: every repeat of that packet is parked again (memory grows per message; stale copies are delivered as data after the sequence number wraps)"
+		}
+		seen, known := false, false
+		for v, t := range e.State.Facts {
+			if c, ok := v.(*ssa.Call); ok && sCallee(c) == isAcked {
+				seen, known = t, true
+			}
+		}
+		if !known || seen {
+			bad = "a packet is parked out of order without the already-seen test having failed"
+		}
+		for _, ev := range e.State.Events {
+			if !isGrowth(ev) {
+				continue
+			}
+			isBoolPhi := func(v ssa.Value) bool {
+				ph, ok := v.(*ssa.Phi)
+				if !ok {
+					return false
+				}
+				bt, ok := ph.Type().Underlying().(*types.Basic)
+				return ok && bt.Kind() == types.Bool
+			}
+			if !dominatedByCond(fn, ev, isBoolPhi, true) {
+				bad = "a packet is parked out of order without the acceptance-window test having succeeded"
+			}
+		}
+	})
+	if !okp {
+		r.Undecided(rule, key, w.Pos(fn.Pos()), "path budget exceeded")
+		return
+	}
+	r.Check(bad == "" && ngrow > 0, rule, key, w.Pos(fn.Pos()), fmt.Sprintf("%d parking path(s): not seen before, inside the window, remembered as seen", ngrow), bad+mapStr(ngrow == 0, "no parking path found"))
 }
